@@ -8,7 +8,8 @@
  * machine with exactly one action per permutation call; spec/TV_Mode.tla validates the recorded call sequence against it.
  *
  * stdin : "<op> <id> <v> <pm> <k> <n> <ad> <x> <flip>"   op = aenc|adec|senc|sdec|hash ; hex fields, "-" = empty ;
- *         x = "@" for adec/sdec: the output of the preceding aenc/senc ; flip = bit of the packet to flip (-1 none)
+ *         x = "@" for adec/sdec: the output of the preceding aenc/senc ; flip = bit of the packet to flip (-1 none) ;
+ *         pm = answer policy + 100 if the call works in place (output buffer = input buffer)
  * stdout: ndjson  Call / Perm* / Ret   and a final {"e":"End"} */
 #include <stdio.h>
 #include <stdlib.h>
@@ -104,7 +105,7 @@ int main(void)
         if (!f[8]) { fprintf(stderr, "bad plan line\n"); return 4; }
         const char *op = f[0]; cur_id = f[1];
         int v = atoi(f[2]), vi = v == 128 ? 0 : v == 192 ? 1 : 2, siv = (op[0] == 's');
-        int pm = atoi(f[3]), flip = atoi(f[8]);
+        int pm = atoi(f[3]) % 100, inplace = atoi(f[3]) / 100, flip = atoi(f[8]);
         unsigned char *k, *n, *ad, *x;
         size_t kl = unhex(f[4], &k), nl = unhex(f[5], &n), al = unhex(f[6], &ad), xl;
         (void)kl; (void)nl;
@@ -121,7 +122,8 @@ int main(void)
         } else if (op[1] == 'e') {
             unsigned char *out = malloc(xl + 64); size_t ol = 0;
             memset(out, 0xA5, xl + 64);
-            encs[siv][vi](out, &ol, x, xl, ad, al, n, k);
+            if (inplace) memcpy(out, x, xl);
+            encs[siv][vi](out, &ol, inplace ? out : x, xl, ad, al, n, k);
             policy = 0;
             printf("{\"e\":\"Ret\",\"id\":\"%s\",\"res\":0,\"len\":%zu,\"out\":", cur_id, ol); putbytes(out, xl + 8); printf("}\n");
             if (xl + 8 <= sizeof(last)) { memcpy(last, out, xl + 8); lastlen = xl + 8; }
@@ -130,7 +132,8 @@ int main(void)
             size_t pl = xl >= 8 ? xl - 8 : 0;
             unsigned char *out = malloc(pl + 64); size_t ol = (size_t)-7;
             memset(out, 0xA5, pl + 64);
-            int res = decs[siv][vi](out, &ol, x, xl, ad, al, n, k);
+            if (inplace && xl >= 8) { free(out); out = malloc(xl + 64); memset(out, 0xA5, xl + 64); memcpy(out, x, xl); }
+            int res = decs[siv][vi](out, &ol, (inplace && xl >= 8) ? out : x, xl, ad, al, n, k);
             policy = 0;
             int untouched = 1;
             for (size_t i = 0; i < pl + 64; i++) if (out[i] != 0xA5) untouched = 0;
